@@ -61,7 +61,7 @@ __CPROVER_ensures(/* without one: the local code page conversion got the whole b
         Mutant('position_not_advanced', OS, r'\n\s*theBufferPosition \+= theSourceBytesEaten;', '\n', expect=None),
         Mutant('target_size_new_size', OS, r'theTargetSize = theDestinationSize;\s*(// Grow[^\n]*\n[^\n]*\n[^\n]*\n\s*)theDestinationSize = theDestinationSize \* 2;', r'\1theDestinationSize = theDestinationSize * 2;\n                theTargetSize = theDestinationSize;', expect=None),
     ],
-    mechanisms=['output stream transcoding in several passes (XalanOutputStream::transcode)'],
+    mechanisms=['output stream transcoding in several passes (XalanOutputStream::transcode)', 'legacy transcoder-based serializer'],
     assumptions=['XalanOutputTranscoder::transcode eats at most the source length and fills at most the target size it is given (ICU / Xerces transcoders, external)',
                  'termination of the pass loop is not proved (a transcoder that makes no progress is outside the contract)',
                  'a resize of the destination vector beyond 2^60 bytes throws (so the doubling of the size cannot wrap); blocks of at most 2^30 units'],
